@@ -106,13 +106,14 @@ M_Wait == /\ mpc = "wait"
           /\ mpc' = "report"
           /\ UNCHANGED <<gen, kind, rflag, stopping, lock, mods, ifdict, reg, hooks, downlog, reports, ann, annOK,
                          bootAfterShut>> /\ UNCHANGED <<ifv, isreq, reqv, discv>>
-(* error lines for everything that is not registered; then the decision *)
+(* error lines for every interface that failed or has not answered in time; then the decision *)
+ToReport == failed \cup (Ifs \ trig)
 M_Report == /\ mpc = "report"
-            /\ reports' = Ifs \ reg
-            /\ mpc' = IF reg = {} /\ ~(Repaired /\ stopping) THEN "noif" ELSE "prop"
+            /\ reports' = ToReport
+            /\ mpc' = IF reg = {} /\ ~Repaired THEN "noif" ELSE "prop"
             /\ UNCHANGED <<gen, kind, rflag, stopping, lock, mods, ifdict, reg, hooks, downlog, ann, annOK,
                            bootAfterShut>> /\ UNCHANGED <<ifv, isreq, reqv, discv>>
-M_NoIf == /\ mpc = "noif"
+M_NoIf == /\ mpc = "noif" /\ ~Repaired
           /\ mods' = IF FixNoIf THEN [mods EXCEPT ![gen] = "down"] ELSE mods
           /\ mpc' = "returned"
           /\ UNCHANGED <<gen, kind, rflag, stopping, lock, ifdict, reg, hooks, downlog, reports, ann, annOK,
@@ -123,16 +124,18 @@ M_Prop == /\ mpc = "prop" /\ ~Repaired
           /\ mpc' = "disc"
           /\ UNCHANGED <<gen, kind, rflag, stopping, lock, mods, ifdict, reg, hooks, downlog, reports, bootAfterShut>>
           /\ UNCHANGED <<ifv, isreq, reqv, discv>>
-(* repaired: with self._lock: if not self._stopping: property, log line, responder *)
+(* repaired: with self._lock: nothing was asked to stop and something listens: property, log line, responder; *)
+(* nothing listens: 'no interface started', and who comes late gives up                                       *)
 M_PropDisc == /\ mpc = "prop" /\ Repaired /\ lock = "free"
-              /\ IF stopping
-                 THEN UNCHANGED <<ann, annOK, discv>>
+              /\ IF stopping \/ reg = {}
+                 THEN /\ UNCHANGED <<ann, annOK, discv>>
+                      /\ stopping' = TRUE
                  ELSE /\ ann' = reg /\ annOK' = (annOK /\ reg \subseteq {i \in Ifs : Accepting(i) \/ i \in crashed})
                       /\ discAttr' = gen /\ discOpen' = discOpen \cup {gen}
                       /\ given' = [given EXCEPT ![gen] = reg] /\ dthr' = [dthr EXCEPT ![gen] = "created"]
-                      /\ UNCHANGED portsOK
+                      /\ UNCHANGED <<portsOK, stopping>>
               /\ mpc' = "join"
-              /\ UNCHANGED <<gen, kind, rflag, stopping, lock, mods, ifdict, reg, hooks, downlog, reports, bootAfterShut>>
+              /\ UNCHANGED <<gen, kind, rflag, lock, mods, ifdict, reg, hooks, downlog, reports, bootAfterShut>>
               /\ UNCHANGED <<ifv, isreq, reqv>>
 (* self.discovery = UDPListener(...); mkthread(self.discovery.run) *)
 M_Disc == /\ mpc = "disc"
@@ -207,11 +210,15 @@ I_Close(i) == /\ ipc[i] \in {"served", "crashed"}
 I_Finish(i) == /\ ipc[i] \in {"closing", "excfail"} /\ lock = "free"
                /\ failed' = IF ipc[i] = "excfail" THEN failed \cup {i} ELSE failed
                /\ trig' = IF ipc[i] = "excfail" THEN trig \cup {i} ELSE trig
-               /\ ipc' = [ipc EXCEPT ![i] = "end"]
+               /\ ipc' = [ipc EXCEPT ![i] = "ending"]
                /\ UNCHANGED <<reg, isreq, isdone, crashed>> /\ IfUnch
+(* the thread function returns *)
+I_End(i) == /\ ipc[i] = "ending"
+            /\ ipc' = [ipc EXCEPT ![i] = "end"]
+            /\ UNCHANGED <<reg, isreq, isdone, trig, failed, crashed>> /\ IfUnch
 
 Iface(i) == I_Construct(i) \/ I_Register(i) \/ I_Trigger(i) \/ I_ServeBegin(i) \/ I_ServeEnd(i) \/ I_Crash(i)
-            \/ I_Close(i) \/ I_Finish(i)
+            \/ I_Close(i) \/ I_Finish(i) \/ I_End(i)
 
 ------------------------------------------------------------------------------
 (* the discovery responder thread of generation g: start-up broadcast, then answers until its socket is closed *)
@@ -307,7 +314,7 @@ Next == Main \/ (\E i \in Ifs : Iface(i)) \/ (\E g \in Gens : D_Run(g) \/ D_End(
 
 Fair == /\ WF_vars(Main)
         /\ \A i \in Ifs : WF_vars(I_Construct(i) \/ I_Register(i) \/ I_Trigger(i) \/ I_ServeBegin(i) \/ I_ServeEnd(i)
-                                  \/ I_Close(i) \/ I_Finish(i))
+                                  \/ I_Close(i) \/ I_Finish(i) \/ I_End(i))
         /\ \A g \in Gens : WF_vars(D_Run(g) \/ D_End(g))
         /\ \A r \in Req : WF_vars(ReqStep(r))
 Spec == Init /\ [][Next]_vars /\ Fair
@@ -320,7 +327,7 @@ AnnounceExact == annOK /\ portsOK
 (* G4 / S2 when run() has returned nothing is left *)
 CleanEnd == mpc = "returned" =>
               /\ \A g \in Gens : mods[g] # "started"
-              /\ \A i \in Ifs : ipc[i] \in {"none", "end"}
+              /\ \A i \in Ifs : ipc[i] \in {"none", "ending", "end"}
 (* G5 a generation begins when the previous one is completely down, the hook called once *)
 GenerationOrder == (mpc = "cfg" /\ gen > 1) =>
                       /\ mods[gen - 1] = "down" /\ hooks[gen - 1] = 1
